@@ -130,6 +130,10 @@ def enumerate_cases(tier):
     for mask in (0x01, 0x10):
         for pos in range(cd, len(raw)):
             cases.append({"kind": "damage", "damage": ["flip%d" % mask, pos]})
+    # things that carry an archive's name and are no regular file: never opened, the search goes on
+    for what in ("fifo", "socket", "dir", "dangling", "loop"):
+        for mode in ("", "dfs"):
+            cases.append({"kind": "not-a-file", "what": what, "mode": mode})
     cases.append({"kind": "damage", "damage": ["empty", 0]})
     cases.append({"kind": "damage", "damage": ["directory", 0]})
     cases.append({"kind": "damage", "damage": ["unreadable", 0]})
@@ -419,8 +423,63 @@ def check_same_names(out, case):
         runner.rmtree(cdir)
 
 
+def check_not_a_file(out, case):
+    import socket
+    cdir = runner.new_case_dir()
+    base = os.path.join(cdir, "t")
+    os.mkdir(base)
+    sock = None
+    try:
+        p = os.path.join(base, "p.zip")
+        what = case["what"]
+        if what == "fifo":
+            os.mkfifo(p)
+        elif what == "socket":
+            sock = socket.socket(socket.AF_UNIX)
+            sock.bind(p)
+        elif what == "dir":
+            os.mkdir(p)
+        elif what == "dangling":
+            os.symlink("nowhere.zip", p)
+        else:
+            os.symlink("p.zip", p)
+        for n in NEIGHBOURS[:8]:
+            open(os.path.join(base, n), "w").close()
+        with open(os.path.join(base, "good.zip"), "wb") as f:
+            f.write(trees.zip_bytes(SMALL))
+        q = "select path from . archives%s into list" % ((" " + case["mode"]) if case["mode"] else "")
+        res = runner.run([q], cwd=base, wall=8)
+        out.evals += 1
+        if res.wall_timeout:
+            # "257 ..." = the process sleeps inside openat(2): blocked on the pipe, not slow
+            if res.blocked.split(" ")[0] in ("257", "2"):
+                out.add("C19/not-a-file/%s/search-blocked-in-open" % what, query=q, syscall=res.blocked[:60])
+            else:
+                out.inconclusive = True
+            return
+        if res.sig is not None or res.status != 0 or res.err:
+            out.add("C19/not-a-file/%s/abnormal-exit" % what, query=q, status=res.status, signal=res.sig, stderr=res.err[:200])
+            return
+        got = collections.Counter(r[0] for r in runner.rows(res.out, 1))
+        want = collections.Counter(["./p.zip", "./good.zip", "[./good.zip] one.txt", "[./good.zip] d/", "[./good.zip] d/two.log"] +
+                                   ["./" + n for n in NEIGHBOURS[:8]])
+        if got != want:
+            out.add("C19/not-a-file/%s/rows" % what, query=q, lost=sorted((want - got).elements())[:6], extra=sorted((got - want).elements())[:6])
+        out.nontrivial = True
+        out.nt_keys = ["not-a-file|%s|%s" % (what, case["mode"])]
+        out.classes = ["not-a-file=" + what]
+        out.sample = {"query": q, "rows": sum(got.values())}
+    finally:
+        if sock is not None:
+            sock.close()
+        runner.rmtree(cdir)
+
+
 def check(case):
     out = Outcome()
+    if case["kind"] == "not-a-file":
+        check_not_a_file(out, case)
+        return out
     if case["kind"] == "same-names":
         check_same_names(out, case)
         out.nontrivial = True
